@@ -117,6 +117,9 @@ def judge(s, mon, sc):
     if sc.get("lifecycle"):
         cls.append("lc")
         mon.count("lifecycle:" + sc["lifecycle"])
+    if sc.get("foreign_group_first"):
+        cls.append("fg")
+        mon.count("same_account_under_a_foreign_group_first")
     if sc.get("salt"):
         cls.append("bsalt")
     if sc.get("a") or sc.get("b"):
@@ -154,6 +157,10 @@ def scenario(rnd, kind):
           "reimport": rnd.random() < 0.5}
     if rnd.random() < 0.05:
         sc["noise"] = rnd.getrandbits(16)
+    if rnd.random() < 0.06:
+        # (generator, modulus) of a foreign group: another generator with the built-in prime, another prime, a composite
+        sc["foreign_group_first"] = rnd.choice([(2, M.N_LE.hex()), (11, M.N_LE.hex()), (7, M.to_le(M.N - 2 ** 200 + 1).hex()),
+                                                (7, M.to_le(2 ** 255 + 95).hex()), (3, M.to_le(65537).hex())])
     r = rnd.random()
     if r < 0.06:
         sc["lifecycle"] = rnd.choice(["use_clone_drop_original", "drop_clone_use_original", "clone_fails_first"])
